@@ -22,6 +22,7 @@ Proved here (all for arbitrary nesting, arbitrary `Mem`, no size bound):
 * `f17_*`               regression witnesses of F17 on the fixed model (17 `if_ez`, 20 `loop_until`)
 -/
 import NetqasmVerif.Lemmas.Sdk
+import NetqasmVerif.Lemmas.SdkWrites
 namespace NQ.C14
 open NQ.Sdk
 
@@ -99,8 +100,8 @@ theorem compiles_of_need (op : Host) (m : Mem) (hc : Completed op) (h : need op 
 def depth : Host → Nat
   | .seq a b => max (depth a) (depth b)
   | .ifc _ _ _ _ body => depth body
-  | .loop _ _ _ body => 1 + depth body
-  | .loopBody _ _ _ body => 1 + depth body
+  | .loop _ _ _ _ body => 1 + depth body
+  | .loopBody _ _ _ _ body => 1 + depth body
   | .foreach _ _ body => 1 + depth body
   | .loopUntil _ body _ _ cl => 1 + max (depth body) (depth cl)
   | .tryUntil _ body => depth body
@@ -117,8 +118,8 @@ def fdepth : Host → Nat
   | .addF f o _ => max f.depth (Val.fdepth o)
   | .addR _ o _ => Val.fdepth o
   | .ifc _ _ _ _ body => fdepth body
-  | .loop _ _ _ body => fdepth body
-  | .loopBody _ _ _ body => fdepth body
+  | .loop _ _ _ _ body => fdepth body
+  | .loopBody _ _ _ _ body => fdepth body
   | .foreach _ _ body => fdepth body
   | .loopUntil _ body _ _ cl => max (fdepth body) (fdepth cl)
   | .tryUntil _ body => fdepth body
@@ -151,8 +152,8 @@ theorem depth_bound (op : Host) (hc : Completed op) : need op ≤ depth op + (2 
     have := ih hc; have := tmp_le_one a; have := tmp_le_one b
     simp only [need, depth, fdepth]
     split <;> omega
-  | loop s e d body ih => have := ih hc; simp only [need, depth, fdepth]; omega
-  | loopBody s e d body ih => have := ih hc; simp only [need, depth, fdepth]; omega
+  | loop rg s e d body ih => have := ih hc; simp only [need, depth, fdepth]; omega
+  | loopBody rg s e d body ih => have := ih hc; simp only [need, depth, fdepth]; omega
   | foreach a w body ih => have := ih hc; simp only [need, depth, fdepth]; omega
   | loopUntil n body ef ev cl ihb ihc =>
     have := ihb hc.1; have := ihc hc.2; have := tmp_le_one ef
@@ -199,6 +200,27 @@ theorem temps_disjoint (m m' : Mem) (i : Nat) (h : takeReg m = .ok (m', i)) :
     rw [s.2.1, getD_set_ne (Ne.symm hne)]; exact hj
   · rw [s.2.1]; exact getD_set_self (getD_true_false_lt s.1) _ _
 
+
+/-- **temps_disjoint on the EMITTED COMMANDS.** Let `op` be any completed operation compiled from `m`.
+No command emitted for it writes (`set`/`load`/`add`/`addm` destination) an R register that is active
+in `m` — i.e. a live loop / condition register of an enclosing operation or a `new_register()`
+register — except the `add` of a `RegFuture.add(h, …)` occurring in `op`, which writes the register
+of its handle `h` on purpose (its owner). -/
+theorem temps_disjoint_code (op : Host) (m m' : Mem) (cs : List PCmd) (hc : Completed op)
+    (h : emit m op = .ok (m', cs)) :
+    ∀ c ∈ cs, ∀ x, writeOf c = some x → x.bank = 0 → m.active.getD x.idx false = true →
+      ∃ hh ∈ addTargets op, ∃ b, m'.handles[hh]? = some (x, b) :=
+  emit_writes op m m' cs hc h
+
+/-- non-vacuity: inside two nested loops a `Future.add` with a future-indexed operand writes only
+R2/R3; the enclosing loop registers R0, R1 are never written by the inner operation -/
+example : let inner : Host := .addF (.fut 0 (.lit 0 0)) (.fut (.lit 0 1)) none
+    let m : Mem := { Mem.init with active := (Mem.init.active.set 0 true).set 1 true, arrLens := [2] }
+    (match emit m inner with
+      | .ok (_, cs) => cs.filterMap writeOf
+      | .error _ => []) = [R 3, R 2, R 3, R 2, R 3] := by
+  decide +kernel
+
 /-- the un-activated pick used for the array-initialisation loop and for future-indexed futures -/
 theorem temps_disjoint_pick (m : Mem) (i : Nat) (h : getInactive m = .ok i) :
     m.active.getD i true = false := getInactive_spec h
@@ -227,14 +249,14 @@ theorem f17_loop_until_20 :
 example : Completed ifEzOnFuture ∧ Completed loopUntilOnce := by simp [ifEzOnFuture, loopUntilOnce, Completed]
 
 /-- non-vacuity of `long_run_compiles`' hypothesis: a depth-2 operation with a future-indexed future -/
-example : let op : Host := .loop 0 2 1 (.foreach 0 true (.addF (.fut 0 (.lit 0 0)) (.fut (.lit 0 1)) none))
+example : let op : Host := .loop none 0 2 1 (.foreach 0 true (.addF (.fut 0 (.lit 0 0)) (.fut (.lit 0 1)) none))
     Completed op ∧ depth op + (2 + fdepth op) ≤ free Mem.init.active ∧ need op = 4 := by
   refine ⟨by simp [Completed], by decide, by decide⟩
 
 /-- the bound of `need` is attained: 16 nested loops need 16 registers, the 17th level fails -/
 def nest : Nat → Host → Host
   | 0, h => h
-  | n + 1, h => .loop 0 1 1 (nest n h)
+  | n + 1, h => .loop none 0 1 1 (nest n h)
 
 def isOk {α : Type} : Except BuildError α → Bool
   | .ok _ => true
@@ -246,6 +268,30 @@ def isNoReg {α : Type} : Except BuildError α → Bool
 
 theorem need_tight_16 : isOk (emit Mem.init (nest 16 (.qop [] .newFut))) = true
     ∧ isNoReg (emit Mem.init (nest 17 (.qop [] .newFut))) = true := by
+  decide +kernel
+
+/-! ### explicit loop registers (`loop_register="R<i>"`) -/
+
+def isRegState {α : Type} : Except BuildError α → Bool
+  | .error .regState => true
+  | _ => false
+
+/-- `conn.loop_body(fn, 3, loop_register="R0")` at top level with a body that needs a temporary: the
+explicitly named register is taken into use, so the temporary of `Future.add` is R1 and R0 is written
+only by the loop's own `set` and `add` (the seeded change C14_2 puts the temporary into R0). -/
+theorem explicit_register_protected :
+    (match emit { Mem.init with arrLens := [3] }
+        (.loopBody (some 0) 0 3 1 (.addF (.lit 0 0) (.lit 1) none)) with
+      | .ok (_, cs) => cs.filterMap writeOf
+      | .error _ => []) = [R 0, R 1, R 1, R 0] := by
+  decide +kernel
+
+/-- an explicit loop register that is in use (here: R0 of the enclosing loop) is rejected, in both
+forms — it is never silently shared -/
+theorem explicit_register_in_use_rejected :
+    isRegState (emit Mem.init (.loop none 0 2 1 (.loopBody (some 0) 0 3 1 (.qop [] .newFut)))) = true ∧
+    isRegState (emit Mem.init (.loop none 0 2 1 (.loop (some 0) 0 3 1 (.qop [] .newFut)))) = true ∧
+    isOk (emit Mem.init (.loop none 0 2 1 (.loop (some 1) 0 3 1 (.qop [] .newFut)))) = true := by
   decide +kernel
 
 end NQ.C14
